@@ -555,10 +555,10 @@ func ruleCtor(c *Ctx) []Obligation {
 				continue
 			}
 			fs, _ := allocFields(al)
-			_, okI := fs["imports"].(*ssa.MakeMap)
-			_, okH := fs["hints"].(*ssa.MakeMap)
-			o.req(okI, fn, "imports is a fresh empty map", r.Pos(), "imports = %s (a nil map makes the first registration panic)", a.Desc(fs["imports"]))
-			o.req(okH, fn, "hints is a fresh empty map", r.Pos(), "hints = %s", a.Desc(fs["hints"]))
+			_, okI := fs[c.ff("imports")].(*ssa.MakeMap)
+			_, okH := fs[c.ff("hints")].(*ssa.MakeMap)
+			o.req(okI, fn, "imports is a fresh empty map", r.Pos(), "imports = %s (a nil map makes the first registration panic)", a.Desc(fs[c.ff("imports")]))
+			o.req(okH, fn, "hints is a fresh empty map", r.Pos(), "hints = %s", a.Desc(fs[c.ff("hints")]))
 			gal, okG := fs["Group"].(*ssa.Alloc)
 			okM := false
 			if okG {
